@@ -84,7 +84,9 @@ Proof. exact clear_removes. Qed.
 Print Assumptions C29_clear_removes.
 
 (* ---- histories: the constructor followed by any reopen(temp, fext, clear,
-   reuse, clean) / close(clear) calls on the same Filer ----
+   reuse, clean) / close(clear) calls and direct remake(name, base, temp,
+   clean, filed, extensioned, fext) calls (any name/base, also different from
+   the constructor's) on the same Filer ----
    [good c st]: the object's .path lies where its .temp attribute says (inside
    its own mkdtemp directory, or inside the head or alt head); [scope st] is
    what a clear of the object may touch: at or below .path, or at or below its
